@@ -211,7 +211,11 @@ func (rt *runtime) cmplEvaluateNodeCallExpression(node *nodeCallExpression, with
 		case *propertyReference:
 			name = rf.name
 			this = objectValue(rf.base)
-			eval = rf.name == "eval" // Possible direct eval
+			// Possible direct eval: only through an identifier (15.1.2.1.1: the
+			// base of the reference is an environment record, here that of a
+			// with statement or of the global object), not through o.eval(...).
+			_, isIdentifier := node.callee.(*nodeIdentifier)
+			eval = rf.name == "eval" && isIdentifier
 		case *stashReference:
 			// TODO ImplicitThisValue
 			name = rf.name
